@@ -18,7 +18,8 @@ RULE = (
 )
 REQUIRED = ["siphon_sets_checked", "trap_sets_checked", "enabled_contract_evals", "fire_contract_evals",
             "realizable_true", "realizable_false", "certificates_replayed", "catalyst_firings",
-            "networks_with_siphon_larger_than_2", "flows_needing_specific_order", "analyzer_checked", "history_after_borrow_checked", "borrow_vectors_nonzero"]
+            "networks_with_siphon_larger_than_2", "flows_needing_specific_order", "analyzer_checked", "history_after_borrow_checked", "borrow_vectors_nonzero",
+            "scaled_search_checked", "flows_realizable_only_after_scaling", "siphon_family_4x4_checked"]
 ASSUMPTIONS = [
     "realizability compared only for flows whose product of (flow+1) <= 10^4 (complete search on both sides, well inside the code's default bounds)",
     "max_size argument: expected = inclusion-minimal sets among those of size <= max_size",
@@ -224,6 +225,24 @@ def check_realizability(ctx, net, flow, tag=""):
             ctx.violation("certificate", wit, f"certificate {cert}: {problem}")
         if pr.certificate != cert:
             ctx.violation("certificate", wit, f"stored certificate {pr.certificate} != returned {cert}")
+    # scaled search: smallest factor k <= 3 for which k*flow has an ordering; afterwards the instance answers for the
+    # original flow again (no borrow search in between: that one rebuilds the net itself)
+    if sum(flow) and 3 * sum(flow) <= 18:
+        want_k = next((k for k in (1, 2, 3) if realizable_oracle(net, [k * f for f in flow])[0]), None)
+        oks, ks = pr.is_scaled_realizable(k_max=3)
+        ctx.count("scaled_search_checked")
+        if want_k is not None and want_k >= 2:
+            ctx.count("flows_realizable_only_after_scaling")
+        if (oks, ks) != (want_k is not None, want_k):
+            ctx.violation("scaled-realizable", wit, f"is_scaled_realizable(k_max=3) = {(oks, ks)}, the smallest factor with an ordering is {want_k}")
+        ok3, cert3 = pr.is_realizable()
+        if ok3 != want:
+            ctx.violation("realizable-depends-on-history", {**wit, "after": "scaled search"},
+                          f"after is_scaled_realizable on the same instance, is_realizable() = {ok3} but an ordering {'exists' if want else 'does not exist'}")
+        elif ok3:
+            problem = replay_certificate(net, ids, flow, cert3)
+            if problem:
+                ctx.violation("certificate", {**wit, "after": "scaled search"}, f"certificate {cert3} after a scaled search: {problem}")
     # history: the auxiliary searches (scaled / borrow) must leave the instance as they found it
     if len(W.species_of(net)) <= 4 and sum(flow) <= 6:
         pr.is_scaled_realizable(k_max=2)
@@ -291,6 +310,18 @@ def random_flow_case(rng):
         if rng.random() < 0.3:
             j = rng.randrange(len(flow))
             flow[j] = max(0, flow[j] + rng.choice([-1, 1]))
+    elif k < 0.42:  # threshold step: m copies are needed at once, the supply delivers fewer per round
+        m = rng.choice([2, 2, 3])
+        a = rng.randint(1, m)
+        mid = rng.random() < 0.4
+        net = [W.rxn({}, {"X": 1}), W.rxn({"X": m}, {"X": m, **({"B": 1} if mid else {})}), W.rxn({"X": 1}, {})]
+        flow = [a, 1, a]
+        if mid:
+            net.append(W.rxn({"B": 1}, {}))
+            flow.append(1)
+        if rng.random() < 0.3:
+            net.append(W.rxn({"A": 1}, {"C": 1}))
+            flow.append(0)
     elif k < 0.55:  # autocatalysis needing a seed
         net = [W.rxn({"A": 1, "X": 1}, {"X": 2}), W.rxn({}, {"A": 1}), W.rxn({"X": 1}, {}),
                W.rxn({}, {"X": 1})]
@@ -321,6 +352,28 @@ def run(ctx):
             if ctx.mine(idx):
                 check_structure(ctx, net, tag=tag)
         ctx.exhaustive[tag + " (all species subsets)"] = True
+    # 4 species, 4 reactions, each "2-3 reactants -> 1 product" (or mirrored): interlocking structures in which every
+    # species lies in a small minimal siphon/trap while a larger minimal one exists as well
+    sp4 = ("A", "B", "C", "D")
+    fam = []
+    for p_ in sp4:
+        others = [x for x in sp4 if x != p_]
+        for r_ in range(2, 4):
+            for sub in itertools.combinations(others, r_):
+                fam.append(W.rxn({x: 1 for x in sub}, {p_: 1}))
+    tag4 = "4sp, 4 reactions of the form (2-3 reactants -> 1 product) and mirrored"
+    for combo in itertools.combinations_with_replacement(range(len(fam)), 4):
+        idx += 1
+        if not ctx.mine(idx):
+            continue
+        if ctx.quick and (idx // ctx.nshards) % 4 != ctx.seed % 4:
+            continue
+        net = [fam[j] for j in combo]
+        ctx.count("siphon_family_4x4_checked")
+        check_structure(ctx, net, tag=tag4)
+        if (idx // ctx.nshards) % 8 == 0:
+            check_structure(ctx, [(r_, b_, a_) for r_, a_, b_ in net], tag=tag4)
+    ctx.exhaustive[tag4 + (" (one quarter per seed)" if ctx.quick else "")] = not ctx.quick
     n = 400 if ctx.quick else 8000
     for i in range(n):
         if ctx.out_of_time(0.5):
